@@ -860,3 +860,214 @@ def rule_T3(ctx):
 
 RULES = {"R4": rule_R4, "R5": rule_R5, "R6": rule_R6, "L1": rule_L1, "L2": rule_L2, "L3": rule_L3,
          "L4": rule_L4, "M1": rule_M1, "M2": rule_M2, "T1": rule_T1, "T2": rule_T2, "T3": rule_T3}
+
+
+# ----------------------------------------------------------------------------------------
+# T4: byte / character units
+
+CHAR_FUNCS = {"uc_slen", "uc_off", "lbuf_eol", "lbuf_indents", "ren_noeol", "ren_off"}
+BYTE_FUNCS = {"strlen", "sbuf_len", "uc_len", "linelength"}
+# argument positions with a declared unit
+SINKS = {
+    "uc_chr": {1: "CHAR"}, "uc_sub": {1: "CHAR", 2: "CHAR"}, "uc_off": {1: "BYTE"},
+    "ren_pos": {1: "CHAR"}, "ren_noeol": {1: "CHAR"}, "ren_cwid": {},
+    "memcpy": {2: "BYTE"}, "memmove": {2: "BYTE"}, "sbuf_mem": {2: "BYTE"}, "term_push": {1: "BYTE"},
+    "strncmp": {2: "BYTE"}, "write": {2: "BYTE"}, "sbuf_cut": {1: "BYTE"}, "malloc": {},
+    "lbuf_findchar": {}, "vi_off2col": {2: "CHAR"}, "vi_col2off": {},
+}
+CHAR_GLOBALS = {"xoff", "xlim"}
+
+# reviewed mixed uses on the pinned tree, one reason each
+T4_EXCEPTIONS = {
+    ("ren_position", "multibyte"): "`n < strlen(s)` deliberately compares the character count with the byte "
+                                    "count of the same string: it is the `has a multi-byte character` test",
+    ("tag_goto", "xoff"): "byte offset of strstr() stored into xoff: wrong column on multi-byte lines, "
+                          "cannot split a character (observation, DESIGN.md section 5)",
+    ("vc_definition", "xoff"): "same as tag_goto (observation)",
+}
+
+
+class _UF:
+    def __init__(self):
+        self.p = {}
+        self.unit = {}
+        self.why = {}
+
+    def find(self, x):
+        self.p.setdefault(x, x)
+        while self.p[x] != x:
+            self.p[x] = self.p[self.p[x]]
+            x = self.p[x]
+        return x
+
+    def label(self, x, u, why):
+        r = self.find(x)
+        if r in self.unit and self.unit[r] != u:
+            return (self.unit[r], self.why[r], u, why)
+        self.unit.setdefault(r, u)
+        self.why.setdefault(r, why)
+        return None
+
+    def union(self, a, b, why):
+        ra, rb = self.find(a), self.find(b)
+        if ra == rb:
+            return None
+        ua, ub = self.unit.get(ra), self.unit.get(rb)
+        if ua and ub and ua != ub:
+            return (ua, self.why[ra], ub, self.why[rb] + " / joined by " + why)
+        self.p[ra] = rb
+        if ua and not ub:
+            self.unit[rb] = ua
+            self.why[rb] = self.why[ra]
+        return None
+
+
+T4_SCOPE = {"C07": {"mot.c", "vi.c", "ren.c"}, "C09": {"vi.c", "term.c"}, "C12": {"rstr.c", "rset.c"},
+            "C13": {"mot.c", "vi.c"}, "C14": {"ex.c"}, "C17": {"ren.c", "uc.c", "dir.c"},
+            "C18": {"ren.c", "uc.c", "dir.c"}}
+
+
+def rule_T4(ctx):
+    scope = T4_SCOPE.get(ctx.prop)
+    ctx.begin("T4", floor=1 if scope else 20, what="functions checked for byte/character unit consistency")
+    prog = ctx.prog
+    n_funcs = 0
+    for f in prog.funcs.values():
+        if f.file in ("stag.c", "regex.c", "conf.c"):
+            continue
+        if scope and f.file not in scope:
+            continue
+        grps = set()
+        for c in f.calls(MATCHERS + ("regexec",)):
+            g = strip_casts(c["args"][3])
+            if g["k"] == "ref":
+                grps.add(g["name"])
+        uf = _UF()
+        conflicts = []
+
+        def node_of(e):
+            """union-find key of an int expression, or None"""
+            e = strip_casts(e)
+            if e is None:
+                return None
+            k = e["k"]
+            if k == "ref" and not e.get("ptr") and "[" not in e.get("ty", ""):
+                if e["cat"] == "global":
+                    if e["name"] in CHAR_GLOBALS:
+                        x = "g:" + e["name"]
+                        uf.label(x, "CHAR", "global %s holds a character offset/count" % e["name"])
+                        return x
+                    return None
+                return "v:" + e["name"]
+            if k == "call" and e.get("fn") in CHAR_FUNCS:
+                x = "e:%d" % e["id"]
+                uf.label(x, "CHAR", "%s() returns characters" % e["fn"])
+                return x
+            if k == "call" and e.get("fn") in BYTE_FUNCS:
+                x = "e:%d" % e["id"]
+                uf.label(x, "BYTE", "%s() returns bytes" % e["fn"])
+                return x
+            if k == "sub" and strip_casts(e["base"])["k"] == "ref" and strip_casts(e["base"])["name"] in grps:
+                x = "e:%d" % e["id"]
+                uf.label(x, "BYTE", "%s[] holds matcher byte offsets" % strip_casts(e["base"])["name"])
+                return x
+            if k == "bin" and e["op"] == "-" and strip_casts(e["l"]).get("ptr") and strip_casts(e["r"]).get("ptr") \
+                    and "char" in strip_casts(e["l"]).get("ty", ""):
+                x = "e:%d" % e["id"]
+                uf.label(x, "BYTE", "pointer difference %s" % key(e)[:30])
+                return x
+            if k == "bin" and e["op"] in ("+", "-"):
+                if cval(e["r"]) is not None:
+                    return node_of(e["l"])
+                if cval(e["l"]) is not None:
+                    return node_of(e["r"])
+                a, b = node_of(e["l"]), node_of(e["r"])
+                if a and b:
+                    c_ = uf.union(a, b, "`%s`" % key(e)[:40])
+                    if c_:
+                        conflicts.append((e, c_))
+                    return a
+                return a or b
+            if k == "cond":
+                a, b = node_of(e["t"]), node_of(e["f"])
+                if a and b:
+                    c_ = uf.union(a, b, "`?:`")
+                    if c_:
+                        conflicts.append((e, c_))
+                return a or b
+            if k == "un" and e["op"] in ("post++", "pre++", "post--", "pre--"):
+                return node_of(e["e"])
+            if k == "un" and e["op"] == "*" and strip_casts(e["e"])["k"] == "ref" and not e.get("ptr"):
+                return "d:" + strip_casts(e["e"])["name"]
+            return None
+
+        any_unit = False
+        for n in f.walk():
+            k = n["k"]
+            if k == "var" and "init" in n and not n.get("ty", "").endswith("*"):
+                a = "v:" + n["name"]
+                b = node_of(n["init"])
+                if b:
+                    c_ = uf.union(a, b, "initialiser of %s" % n["name"])
+                    if c_:
+                        conflicts.append((n, c_))
+            elif k == "bin" and n["op"] in ("=", "+=", "-=") and not n["l"].get("ptr"):
+                a, b = node_of(n["l"]), node_of(n["r"])
+                if a and b:
+                    c_ = uf.union(a, b, "`%s`" % key(n)[:40])
+                    if c_:
+                        conflicts.append((n, c_))
+            elif k == "bin" and n["op"] in ("<", "<=", ">", ">=", "==", "!="):
+                a, b = node_of(n["l"]), node_of(n["r"])
+                if a and b:
+                    c_ = uf.union(a, b, "comparison `%s`" % key(n)[:50])
+                    if c_:
+                        conflicts.append((n, c_))
+            elif k == "call" and n.get("fn") in SINKS:
+                for i, u in SINKS[n["fn"]].items():
+                    if i < len(n["args"]):
+                        a = node_of(n["args"][i])
+                        if a:
+                            c_ = uf.label(a, u, "argument %d of %s() is in %s" % (i + 1, n["fn"], u.lower() + "s"))
+                            if c_:
+                                conflicts.append((n, c_))
+            elif k == "bin" and n["op"] == "+" and n.get("ptr") and "char" in n.get("ty", ""):
+                # char pointer + offset: the offset is in bytes
+                off = n["r"] if strip_casts(n["l"]).get("ptr") or "[" in strip_casts(n["l"]).get("ty", "") else n["l"]
+                a = node_of(off)
+                if a:
+                    c_ = uf.label(a, "BYTE", "added to the char pointer in `%s`" % key(n)[:40])
+                    if c_:
+                        conflicts.append((n, c_))
+            elif k == "sub" and "char" in strip_casts(n["base"]).get("ty", "") and \
+                    strip_casts(n["base"]).get("ty", "").count("*") + strip_casts(n["base"]).get("ty", "").count("[") == 1:
+                a = node_of(n["idx"])
+                if a:
+                    c_ = uf.label(a, "BYTE", "index into the byte string `%s`" % key(n["base"])[:30])
+                    if c_:
+                        conflicts.append((n, c_))
+        if not uf.unit:
+            continue
+        n_funcs += 1
+        if not conflicts:
+            ctx.ok(f.name, "byte and character quantities are never mixed (%d unit classes)" % len(
+                {uf.find(x) for x in uf.p}))
+            continue
+        for n, (u1, w1, u2, w2) in conflicts[:3]:
+            exc = None
+            kk = key(n)
+            if f.name == "ren_position" and "strlen" in kk and n["k"] == "bin" and n["op"] == "<":
+                exc = T4_EXCEPTIONS[("ren_position", "multibyte")]
+            if (f.name, "xoff") in T4_EXCEPTIONS and "xoff" in kk + w1 + w2:
+                exc = T4_EXCEPTIONS[(f.name, "xoff")]
+            if exc:
+                ctx.note("%s: %s -- not armed: %s" % (f.name, kk[:50], exc))
+                continue
+            ctx.violation(f.name, "bytes and characters are not mixed",
+                          "`%s` uses one quantity both as %s (%s) and as %s (%s): on a line with "
+                          "multi-byte characters the two differ" % (kk[:60], u1, w1, u2, w2), f.loc(n))
+        if not any(r.func == f.name and r.rule == "T4" for r in ctx.results[-4:]):
+            ctx.ok(f.name, "only reviewed mixed uses (see notes)")
+
+
+RULES["T4"] = rule_T4
